@@ -1051,7 +1051,12 @@ def getitem(I, o, k):
     if isinstance(o, dict):
         k = dict_key(I, o, k)
         if k in o:
-            return o[k]
+            return dict.__getitem__(o, k)
+        factory = getattr(o, "default_factory", None)
+        if factory is not None:                      # collections.defaultdict: the missing value is created, stored and returned
+            v = I.call(factory, [], {})
+            dict.__setitem__(o, k, v)
+            return v
         raise PyExc("KeyError", (k,))
     if isinstance(o, str):
         return o[k]
@@ -1794,6 +1799,81 @@ def make_builtins(I):
     B["Ellipsis"] = None
     B["__name__"] = "__main__"
     return B
+
+
+class DefaultDict(dict):
+    """collections.defaultdict: a dict (every dict operation of the engine applies) with a factory for missing keys in d[key]"""
+    default_factory = None
+
+
+class DequeModel(Ext):
+    """collections.deque over concrete items (append / appendleft / pop / popleft / extend / extendleft / clear / len /
+    iteration / indexing, maxlen incl. the maxlen=0 'consume an iterator' idiom)"""
+    type_name = "deque"
+
+    def __init__(self, items, maxlen):
+        self.items, self.maxlen = list(items), maxlen
+        self._trim(left=True)
+
+    def _trim(self, left):
+        if self.maxlen is not None and len(self.items) > self.maxlen:
+            extra = len(self.items) - self.maxlen
+            self.items[:] = self.items[extra:] if left else self.items[:len(self.items) - extra]
+
+    def py_len(self, I):
+        return len(self.items)
+
+    def py_iter(self, I):
+        return iter(list(self.items))
+
+    def py_truth(self, I):
+        return bool(self.items)
+
+    def py_getitem(self, I, k):
+        if isinstance(k, int) and not isinstance(k, bool):
+            try:
+                return self.items[k]
+            except IndexError:
+                raise PyExc("IndexError", ("deque index out of range",)) from None
+        raise Unsupported("deque indexed by a non-integer")
+
+    def py_isinstance(self, I, cls):
+        return getattr(cls, "name", None) == "deque"
+
+    def py_getattr(self, I, name):
+        d = self
+        if name == "maxlen":
+            return self.maxlen
+
+        def method(fn):
+            return Builtin(f"deque.{name}", lambda I_, a, k: fn(I_, a))
+        if name == "append":
+            return method(lambda I_, a: (d.items.append(a[0]), d._trim(True))[0:0] and None)
+        if name == "appendleft":
+            return method(lambda I_, a: (d.items.insert(0, a[0]), d._trim(False))[0:0] and None)
+        if name == "extend":
+            def ext(I_, a):
+                for x in iterate(I_, a[0]):
+                    d.items.append(x)
+                    d._trim(True)
+            return method(ext)
+        if name == "extendleft":
+            def extl(I_, a):
+                for x in iterate(I_, a[0]):
+                    d.items.insert(0, x)
+                    d._trim(False)
+            return method(extl)
+        if name in ("pop", "popleft"):
+            def pop(I_, a):
+                if not d.items:
+                    raise PyExc("IndexError", ("pop from an empty deque",))
+                return d.items.pop() if name == "pop" else d.items.pop(0)
+            return method(pop)
+        if name == "clear":
+            return method(lambda I_, a: d.items.clear())
+        if name == "copy":
+            return method(lambda I_, a: DequeModel(d.items, d.maxlen))
+        raise Unsupported(f"deque.{name}")
 
 
 class IterVal(Ext):
